@@ -154,10 +154,6 @@ func (st *state) render(sp *Spec, F sk.F3, fail func(string)) *rendered {
 		obj.Render(rec, col)
 	}
 	out := &rendered{tris: col.T, rec: rec}
-	if len(rec.P) == 0 {
-		fail("renderer evaluated no point")
-		return nil
-	}
 	var xs, ys, zs []float64
 	for _, p := range rec.P {
 		xs, ys, zs = append(xs, p.X), append(ys, p.Y), append(zs, p.Z)
@@ -165,15 +161,21 @@ func (st *state) render(sp *Spec, F sk.F3, fail func(string)) *rendered {
 	if sp.Renderer == "octree" {
 		resolution := bb.Size().MaxComponent() / float64(sp.Cells)
 		g := sk.Grid3{Origin: bb.ScaleAboutCenter(1.01).Min, Res: 0.5 * resolution}
-		i, _, _, ok := g.Index(rec.P[0])
+		// number of levels: a fresh renderer on a field that is huge everywhere evaluates the top centre only
+		probe := &sk.Recorder3{S: &sk.Fn3{F: func(v3.Vec) float64 { return 1e300 }, BB: bb}}
+		render.NewMarchingCubesOctree(sp.Cells).Render(probe, &sk.TriCollector{})
 		levels := 0
-		for l := 2; l < 40; l++ {
-			if i == 1<<(uint(l)-2) {
-				levels = l
+		if len(probe.P) == 1 {
+			if i, _, _, ok := g.Index(probe.P[0]); ok {
+				for l := 2; l < 40; l++ {
+					if i == 1<<(uint(l)-2) {
+						levels = l
+					}
+				}
 			}
 		}
-		if !ok || levels == 0 {
-			fail(fmt.Sprintf("octree: first evaluation %v is not the centre of the top cube (origin %v, res %v)", rec.P[0], g.Origin, g.Res))
+		if levels == 0 {
+			fail(fmt.Sprintf("octree: the probe render does not start at the centre of a top cube of the lattice origin %v, res %v", g.Origin, g.Res))
 			return nil
 		}
 		side := float64(int(1)<<uint(levels-1)) * g.Res
@@ -191,6 +193,10 @@ func (st *state) render(sp *Spec, F sk.F3, fail func(string)) *rendered {
 			}
 		}
 		return out
+	}
+	if len(rec.P) == 0 {
+		fail("renderer evaluated no point")
+		return nil
 	}
 	out.xs, out.ys, out.zs = sk.SortedDistinct(xs), sk.SortedDistinct(ys), sk.SortedDistinct(zs)
 	nx, ny, nz := len(out.xs)-1, len(out.ys)-1, len(out.zs)-1
